@@ -111,6 +111,9 @@ func (e *Engine) Call(fn *ssa.Function, args ...value) (res value, err error) {
 			if isEngineAbort(r) {
 				panic(r)
 			}
+			if _, ok := r.(string); ok && theEngine != nil && theEngine.journalng {
+				panic(r)
+			}
 			if os.Getenv("GOSYM_DEBUG") != "" {
 				fmt.Fprintf(os.Stderr, "Engine.Call panic: %v\n%s\n", r, debug.Stack())
 			}
